@@ -563,7 +563,16 @@ int main(int argc, char** argv)
             c.count("tsan_threads_run", mix.size());
          }
       int n = g_tsanReports.load();
-      if(n > 0) c.violation(std::string("tsan-report:") + (g_tsanFirst[0] ? g_tsanFirst : "unknown"), "free-running", std::to_string(n) + " ThreadSanitizer report(s); first: " + g_tsanFirst + "; see the sanitizer log");
+      // the property is about state shared INSIDE THE LIBRARY: a report counts as a violation when one of its two accesses is in SoPlex or in the Boost / GMP / MPFR code it
+      // instantiates (or when the accesses could not be attributed); a report whose accesses both lie elsewhere (harness, C++ run time) is recorded as an observation
+      if(n > 0)
+      {
+         std::string first = g_tsanFirst;
+         bool inLibrary = first.empty() || first.find("soplex::") != std::string::npos || first.find("boost::") != std::string::npos || first.find("mpfr") != std::string::npos
+                          || first.find("__gmp") != std::string::npos || first.find(" vs ") == std::string::npos;
+         if(inLibrary) c.violation(std::string("tsan-report:") + (first.empty() ? "unknown" : first), "free-running", std::to_string(n) + " ThreadSanitizer report(s); first: " + first + "; see the sanitizer log");
+         else { c.count("observation.tsan_reports_outside_the_library", n); c.sample("{\"tsan_report_outside_the_library\":" + jstr(first) + "}"); }
+      }
       return n + 1;
    }, [&](uint64_t, uint64_t) { return std::string("free-running"); }, o);
    rep.evaluations = rep.all.counters["tsan_free_runs"];
